@@ -39,6 +39,7 @@ def emit_strategy(n, with_hooks=True, dts=(0, 0, 0, 1, 1, 2, 3, -1, -2), jitter=
         "daemon": st.sampled_from([False, False, False, False, True]),
     }
     opt = {}
+    opt["via"] = st.sampled_from([0, 0, 0, 0, 1])     # 1: handed to sim.schedule() from inside the handler instead of being returned
     if jitter:
         opt["j"] = st.sampled_from([0, 0, 0, 0, 0, 1, -1])
     if handles:
@@ -124,7 +125,8 @@ def program_strategy(draw, tier="quick", procs=True, futures=True, combinators=T
     })
     initial = draw(st.lists(init, min_size=1, max_size=12 if tier == "thorough" else 8))
     return {"n": n, "nfut": nfut, "fuel": draw(st.sampled_from([2, 3, 3, 4])), "handlers": handlers, "behs": behs,
-            "initial": initial, "batch": draw(st.booleans())}
+            "initial": initial, "batch": draw(st.booleans()),
+            "start": draw(st.sampled_from([0, 0, 0, 0, 1, 2]))}      # Simulation(start_time=start ticks): earlier pre-run events are not live
 
 
 # ------------------------------------------------------------------------------ real execution
@@ -207,7 +209,7 @@ class RealRun:
                     for fid, val in beh.get("resolve", []):
                         if nfut:
                             run.futs[fid % nfut].resolve(val)
-                    evs = [run.mk(em, fuel - 1, now) for em in beh["imm"]]
+                    evs = run.route(beh["imm"], [run.mk(em, fuel - 1, now) for em in beh["imm"]])
                     for h in beh.get("cancel", []):
                         run.cancel(h)
                     if beh.get("flush"):
@@ -283,6 +285,8 @@ class RealRun:
 
         self.ents = [PEnt(i) for i in range(n)]
         kw = dict(sim_kwargs or {})
+        if prog.get("start"):
+            kw["start_time"] = Instant(int(prog["start"]) * TICK)
         if end_ns is not None:
             kw["end_time"] = Instant(end_ns)
         if trace_recorder is not None:
@@ -330,6 +334,16 @@ class RealRun:
 
     def mk(self, em, fuel, now_ns):
         return self.new_event(max(0, now_ns + em["dt"] * TICK + em.get("j", 0)), em, fuel)
+
+    def route(self, emits, evs):
+        """Events whose emit says via=1 are handed to sim.schedule() right away (from inside the handler); the rest is returned."""
+        out = []
+        for em, ev in zip(emits, evs):
+            if em.get("via"):
+                self.sim.schedule(ev)
+            else:
+                out.append(ev)
+        return out
 
     def cancel(self, h):
         ev = self.handles.get(h)
